@@ -7,6 +7,7 @@
 import CppUtil.Core.Basic
 import CppUtil.Monitor.ThreadMon
 import CppUtil.Monitor.OptMon
+import CppUtil.Monitor.Hb
 
 namespace CppUtil.Monitor
 open CppUtil
@@ -35,6 +36,7 @@ structure MonSt where
   nFifoChecks : Nat := 0
   th : ThreadMon := {}
   opt : OptMon := {}
+  hb : HbMon := {}
   /-- first violation found, if any -/
   bad : Option String := none
   /-- counters for the evidence -/
